@@ -420,12 +420,20 @@ func PrintEnumRule(e EnumRule, lay *Layout) string {
 	for i, it := range e.Items {
 		parts[i] = p.val(it, false)
 	}
+	for _, n := range e.Between {
+		if n != "" {
+			hasNotes = true
+		}
+	}
 	if !hasNotes && lay.Compact {
 		return "[" + p.join(parts, false) + "]"
 	}
 	var b strings.Builder
 	b.WriteString("[" + nl)
 	for i, s := range parts {
+		if i < len(e.Between) && e.Between[i] != "" {
+			b.WriteString("  // " + e.Between[i] + nl)
+		}
 		b.WriteString("  " + s)
 		if i != len(parts)-1 {
 			b.WriteString(",")
@@ -434,6 +442,9 @@ func PrintEnumRule(e EnumRule, lay *Layout) string {
 			b.WriteString(" // " + e.Notes[i])
 		}
 		b.WriteString(nl)
+	}
+	if len(e.Between) > len(parts) && e.Between[len(parts)] != "" {
+		b.WriteString("  // " + e.Between[len(parts)] + nl)
 	}
 	b.WriteString("]")
 	return b.String()
